@@ -224,7 +224,8 @@ class Chain(BaseChain):
         if self._hasblobs:
             if not isinstance(blob, dict):
                 raise TypeError("model must return blob data as a dictionary")
-            self._blobs = ChainData(blob.keys(), dtypes=detect_dtypes(blob))
+            self._blobs = ChainData(sorted(blob.keys()),
+                                    dtypes=detect_dtypes(blob))
         self.stats0 = {'logl': logl, 'logp': logp}
         self.blob0 = blob
 
@@ -311,7 +312,7 @@ class Chain(BaseChain):
             blob = blob.copy()
             # create scratch for blobs
             if self._blobs is None:
-                self._blobs = ChainData(blob.keys(),
+                self._blobs = ChainData(sorted(blob.keys()),
                                         dtypes=detect_dtypes(blob))
         self._blob0 = blob
 
